@@ -357,6 +357,8 @@ class GridSearcher(StochasticSearcher):
             super().get_state(),
             next_index=self._next_index,
             all_initial_configs=self._all_initial_configs.get_state(),
+            # ``_next_index`` refers to this (possibly shuffled) ordering
+            hp_values_combinations=self.hp_values_combinations.copy(),
         )
         return state
 
@@ -373,6 +375,12 @@ class GridSearcher(StochasticSearcher):
     def _restore_from_state(self, state: Dict[str, Any]):
         super()._restore_from_state(state)
         self._next_index = state["next_index"]
+        k = "hp_values_combinations"
+        if k in state:
+            # Ordering of the grid the state was taken from. Without this, the
+            # grid of the clone is shuffled with the default random seed.
+            # States written by older versions do not contain this entry
+            self.hp_values_combinations = list(state[k])
         self._all_initial_configs = ExclusionList(self._hp_ranges)
         self._all_initial_configs.clone_from_state(state["all_initial_configs"])
 
